@@ -536,7 +536,7 @@ func (w *World) cfgStr(st dhcp.VerifState) string {
 	return fmt.Sprintf("%d,%d,%d,%s,%s", st.Mode, u32(w.Cfg.Host), u32(w.Cfg.Router), subnetStr(st.Net1), subnetStr(st.Net2))
 }
 
-// Dump is dump for the other runners (harness/c08dhcp: raw payloads).
+// Dump is dump for the other runners (harness/c08dhcp: raw payloads; harness/c18: restart simulation).
 func (w *World) Dump() (state string, cfg string, bad string) { return w.dump() }
 
 // dump renders the implementation state (lease table, cursors, session oracles) in the model's syntax.
@@ -572,9 +572,6 @@ func (w *World) dump() (state string, cfg string, bad string) {
 	state = fmt.Sprintf("%s,%s|%s|%s|%s", cur(st.Net1.NextIP), cur(st.Net2.NextIP), joinOr(leases, ";"), joinOr(hosts, ";"), joinOr(capt, ";"))
 	return state, w.cfgStr(st), bad
 }
-
-// Dump: the implementation state and configuration in the model's syntax (for the restart simulation of C18).
-func (w *World) Dump() (state string, cfg string, bad string) { return w.dump() }
 
 // ---------------------------------------------------------------------------------------------
 // running one op on the real code
